@@ -121,6 +121,8 @@ impl Cfg5 {
 pub type BoxFut<T> = Pin<Box<dyn Future<Output = T>>>;
 /// `PublishReceived` is not nameable outside the crate: kept as a closure that releases it
 pub type Receipt = Box<dyn FnOnce() -> BoxFut<Result<(), ntex_mqtt::error::SendPacketError>>>;
+/// a `StreamingPayload` (not nameable for v3): `send(chunk)`; dropping the closure drops the stream
+pub type StreamFn = Rc<dyn Fn(Vec<u8>) -> BoxFut<Result<(), SendErr>>>;
 pub type SrvPipeline = Pipeline<ntex::service::boxed::BoxService<IoBoxed, (), ntex_mqtt::MqttError<AppErr>>>;
 
 /// Neutral result of a sink operation.
@@ -171,7 +173,7 @@ pub struct Eut5 {
     pub done: Rc<Done>,
     pub sink: Rc<RefCell<Option<v5::MqttSink>>>,
     pub receipts: Rc<RefCell<Vec<Option<Receipt>>>>,
-    pub streams: Rc<RefCell<Vec<Option<Rc<v5::StreamingPayload>>>>>,
+    pub streams: Rc<RefCell<Vec<Option<StreamFn>>>>,
 }
 
 fn stop_kind(r: &Reason<AppErr>) -> StopKind {
@@ -766,6 +768,59 @@ impl Eut5 {
                 // (the future borrows the sink: created and first polled together)
                 Box::pin(async move { SendRes::Ready(sink.ready().await) })
             }
+        }
+    }
+
+    /// start a streamed publish (QoS 0 or 1): the awaiting future (QoS 1) and the index of the stream handle
+    pub fn stream_start(&self, qos: u8, topic: String, declared: u32, pid: Option<u16>) -> (Option<BoxFut<SendRes>>, Result<usize, SendErr>) {
+        let Some(sink) = self.sink() else {
+            return (None, Err(SendErr::Disconnected));
+        };
+        let mut b = sink.publish(ByteString::from(topic));
+        if let Some(id) = pid {
+            b = b.packet_id(id);
+        }
+        let keep = |stream: v5::StreamingPayload| -> usize {
+            let st = Rc::new(stream);
+            let f: StreamFn = Rc::new(move |chunk: Vec<u8>| {
+                let st = st.clone();
+                Box::pin(async move { st.send(Bytes::from(chunk)).await.map_err(send_err) }) as BoxFut<_>
+            });
+            let mut v = self.streams.borrow_mut();
+            v.push(Some(f));
+            v.len() - 1
+        };
+        if qos == 0 {
+            match b.stream_at_most_once(declared) {
+                Ok(stream) => (None, Ok(keep(stream))),
+                Err(e) => (None, Err(send_err(e))),
+            }
+        } else {
+            let (fut, stream) = b.stream_at_least_once(declared);
+            let idx = keep(stream);
+            let fut: BoxFut<SendRes> = Box::pin(async move {
+                match fut.await {
+                    Ok(a) => SendRes::PubAck(ack_from(&a)),
+                    Err(e) => SendRes::Err(send_err(e)),
+                }
+            });
+            (Some(fut), Ok(idx))
+        }
+    }
+
+    /// `StreamingPayload::send(chunk)` (created, not polled)
+    pub fn stream_chunk(&self, idx: usize, chunk: Vec<u8>) -> BoxFut<Result<(), SendErr>> {
+        let f = self.streams.borrow().get(idx).and_then(Clone::clone);
+        match f {
+            Some(f) => f(chunk),
+            None => Box::pin(async { Err(SendErr::StreamingCancelled) }),
+        }
+    }
+
+    /// drop the `StreamingPayload` (chunk futures still alive keep it alive)
+    pub fn stream_drop(&self, idx: usize) {
+        if let Some(slot) = self.streams.borrow_mut().get_mut(idx) {
+            slot.take();
         }
     }
 
